@@ -4,9 +4,10 @@
      prog: space-separated  t<to>=<ok> | i<from><to>=<ok> | s<to>=<ok> | g<st> | r<0|1>
            (Transition / TransitionIfCurrentState / SetState with the observed outcome, GetState,
            IsRunning), executed sequentially by one goroutine on a fresh finitestate.Machine
-     subs: ';'-separated  lo,hi,ulo,uhi,closed,cancelled,<digits received>[,ms]
+     subs: ';'-separated  lo,hi,ulo,uhi,closed,cancelled,<digits received>[,ms[,rcv]]
            lo..hi bound the number of state changes at registration/read, ulo..uhi at un-registration;
-           ms = milliseconds between the cancel and the consumer seeing the close (-1 unknown)
+           ms = milliseconds between the cancel and the consumer seeing the close (-1 unknown),
+           rcv = number of values the consumer had received when the subscription was cancelled
    RUN <runner> <id> <events> <subs> <res> <state-at-return> <notes>
      events: space-separated code lists (see coq/model/FsmRunners.v: 0,.. machine label of the
            reference subscriber / polls, 1,.. runner label); subs as above with bounds relative to the
@@ -45,9 +46,11 @@ let check_sub id h (spec : string) =
      long loses the values still in flight (model label LFwdAbort, flag [dropped]: outside the hypothesis
      "the consumer keeps up").  The close can then not be seen earlier than one grace after the cancel. *)
   let grace_ms = 100 in
-  let close_ms = match fields with [_; _; _; _; _; _; _; ms] -> (try int_of_string ms with _ -> -1) | _ -> -1 in
+  let close_ms = match fields with _ :: _ :: _ :: _ :: _ :: _ :: _ :: ms :: _ -> (try int_of_string ms with _ -> -1) | _ -> -1 in
+  let rcv = match fields with [_; _; _; _; _; _; _; _; r] -> (try Stdlib.max 0 (int_of_string r) with _ -> 0) | _ -> 0 in
   match fields with
-  | [lo; hi; ulo; uhi; closed; cancelled; got] | [lo; hi; ulo; uhi; closed; cancelled; got; _] ->
+  | [lo; hi; ulo; uhi; closed; cancelled; got] | [lo; hi; ulo; uhi; closed; cancelled; got; _]
+  | [lo; hi; ulo; uhi; closed; cancelled; got; _; _] ->
     let n = List.length h in
     let fix x = let v = int_of_string x in if v < 0 || v > n then n else v in
     let lo = fix lo and hi = fix hi and ulo = fix ulo and uhi = fix uhi in
@@ -73,7 +76,7 @@ let check_sub id h (spec : string) =
       | None ->
         if closed && cancelled && close_ms >= grace_ms
            && classify_slow h got (nat_of_int lo) (nat_of_int hi) (nat_of_int ulo) (nat_of_int uhi)
-                (nat_of_int (close_ms / grace_ms))
+                (nat_of_int (close_ms / grace_ms)) (nat_of_int rcv)
         then
           (* the expected stream with at most (close_ms / grace) values missing, none of them delivered to the
              wrapped channel before the cancel, and the consumer saw the close >= one grace period after the
